@@ -88,8 +88,8 @@ Proof.
   - injection H as <- <-. apply names_fresh; [right; exact I|exact Hsub].
 Qed.
 
-Lemma gen_join_names srca srcb p a b on_a on_b jt lf usg n q n' :
-  src_ok srca -> src_ok srcb -> gen_join srca srcb p a b on_a on_b jt lf usg n = Ok (q, n') -> names_ok n n' q.
+Lemma gen_join_names d srca srcb p a b on_a on_b jt lf usg n q n' :
+  src_ok srca -> src_ok srcb -> gen_join d srca srcb p a b on_a on_b jt lf usg n = Ok (q, n') -> names_ok n n' q.
 Proof.
   intros HA HB H. unfold gen_join in H. destruct (negb (subset _ _)); [discriminate|]. unfold bind in H.
   destruct (srca _ (S n)) as [[ql n2]| |] eqn:EA; try discriminate. destruct (srcb _ n2) as [[qr n3]| |] eqn:EB; try discriminate.
